@@ -240,7 +240,8 @@ class TransformerRun(object):
 
     # statements ----------------------------------------------------------------------------------------
     def run(self):
-        self.block(self.f.node.body)
+        from sa import norm as _norm
+        self.block(_norm.split_tuple_locals(self.f.node).body)       # pairs held in a local, chained assignments: the statements they abbreviate
         return self
 
     def block(self, stmts):
@@ -290,6 +291,12 @@ class TransformerRun(object):
             return      # the key of the memo
         if isinstance(st, ast.Assign) and len(st.targets) == 1:
             t = st.targets[0]
+            if isinstance(t, ast.Name) and isinstance(st.value, ast.Name) and st.value.id in self.nums and st.value.id not in self.units:
+                # a copy of a number: what is known about it (the divisibility guard it passed) is known about the copy
+                self.nums[t.id] = self.nums[st.value.id]
+                if st.value.id in self.guards:
+                    self.guards[t.id] = self.guards[st.value.id]
+                return
             if isinstance(t, ast.Name):
                 if self.unit_of(st.value) is None and (isinstance(st.value, (ast.Compare, ast.BoolOp)) or (isinstance(st.value, ast.UnaryOp) and isinstance(st.value.op, ast.Not))):
                     if self.test(st.value) is not None or isinstance(st.value, ast.Compare):
@@ -367,7 +374,16 @@ class TransformerRun(object):
         if isinstance(st, ast.Return):
             if isinstance(st.value, ast.Tuple) and len(st.value.elts) == 2:
                 try:
-                    self.ret = (self.num_of(st.value.elts[0])[0], self.num_of(st.value.elts[1])[0])
+                    vals_ = [self.num_of(st.value.elts[0]), self.num_of(st.value.elts[1])]
+                    self.ret = (vals_[0][0], vals_[1][0])
+                    # `return int(b), int(e)`: the conversion to a sample count happens in the return
+                    for k_, (_r, ints_) in enumerate(vals_):
+                        for c_ in ints_:
+                            src = [n.id for a in c_.args for n in ast.walk(a) if isinstance(n, ast.Name)]
+                            self.int_lines['#ret%d' % k_] = st.lineno
+                            for s_ in src:
+                                if s_ not in self.guards:
+                                    self.problems.append((st.lineno, 'int(%s) is applied without a dominating divisibility guard: the bound is rounded instead of rejected' % s_))
                 except ValueError as ex:
                     raise AnalysisError('%s: cannot interpret return (%s)' % (self.f.where, ex))
             else:
